@@ -202,13 +202,14 @@ class Gen1:
     """Produces valid TL1 encodings straight from the descriptor (an independent third implementation,
     used only to shape inputs: both sides of the tie decode what it produces)."""
 
-    def __init__(self, sc, rng, maxdepth=4, big=False, noncanon=False):
+    def __init__(self, sc, rng, maxdepth=4, big=False, noncanon=False, zero_bias=0):
         self.I = sc.desc["instances"]
         self.rng = rng
         self.maxdepth = maxdepth
         self.big = big
         self.noncanon = noncanon      # emit some strings in non-minimal length forms / with non-zero padding (must be rejected)
         self.bad = 0                  # number of non-canonical strings emitted into the current value
+        self.zero_bias = zero_bias    # percent chance that a primitive / string / vector is its empty value (sparse objects)
 
     def u32(self, n):
         return (n & 0xFFFFFFFF).to_bytes(4, "little")
@@ -245,6 +246,8 @@ class Gen1:
     def prim(self, i):
         r = self.rng
         p = i["prim"]
+        if self.zero_bias and r.below(100) < self.zero_bias and p != "bool":
+            return {"uint32": 4, "int32": 4, "float32": 4, "uint64": 8, "int64": 8, "float64": 8, "string": 4, "byte": 1}.get(p, 0) * b"\x00"
         if p in ("uint32", "int32"):
             return self.u32(r.choice([0, 1, 2, 0xFFFFFFFF, 0x80000000, r.below(2**32), r.below(100)]))
         if p == "float32":
@@ -347,6 +350,8 @@ class Gen1:
                     n = n  # keep: the caller chose it
             else:
                 n = 0 if depth >= self.maxdepth else r.choice([0, 0, 1, 1, 2, 3, 5])
+                if self.zero_bias and r.below(100) < self.zero_bias:
+                    n = 0
                 out += self.u32(n)
             for _ in range(min(n, 4096)):
                 out += self.value(e["ty"], e["bare"], na, depth + 1)
@@ -392,6 +397,8 @@ def corpus(c, small=False):
     s.append(Schema("zs", [os.path.join(ROOT, "schemas", "zerosize.tl")], tl2="", sanity=True))
     # dictionaries whose values own storage (slices, nested maps, pointers): reuse bugs inside container readers show only there
     s.append(Schema("dv", [os.path.join(ROOT, "schemas", "dictval.tl")], tl2="*", sanity=True, bytes_wl="dv."))
+    # structs with more than 8 / 16 fields: second and third TL2 presence-mask bytes
+    s.append(Schema("wd", [os.path.join(ROOT, "schemas", "wide.tl")], tl2="*", sanity=True, bytes_wl="wd."))
     if c.thorough and not small:
         s += [Schema("gold", [T + "/goldmaster.tl", T + "/goldmaster2.tl", T + "/goldmaster3.tl"], tl2="*", sanity=True, split=True,
                      bytes_wl="ch_proxy.,ab.")]
